@@ -39,7 +39,9 @@ def build_dict(cols, n=NROWS):
     data = {}
     for name, k, shift in cols:
         if k is None:
-            data[name] = np.arange(n) if name == 'v' else np.arange(n) * 10 + shift
+            # 'v' is a permutation of 0..n-1 that is NOT sorted, so that Dask's sort_values /
+            # set_index really shuffle
+            data[name] = (np.arange(n) * 3 + 1) % n if name == 'v' else np.arange(n) * 10 + shift
         else:
             data[name] = geom_column(k, shift, n)
     return data
